@@ -109,7 +109,8 @@ int kalign_essential_input_check(struct msa *msa, int exit_on_error)
                                 }
                         }
                         for(int i = msa->numseq; i < msa->alloc_numseq;i++){
-                                 tmp[i] = NULL;
+                                 /* keep the pre-allocated, unused records: kalign_free_msa releases them */
+                                 tmp[i] = msa->sequences[i];
                         }
 
                         MFREE(msa->sequences);
